@@ -9,7 +9,7 @@ from ..dataflow import _rd_of, cfg_node_of
 from ..fold import Unknown, fold_in_fn, fold_name
 from ..lexsim import LexerSim
 from ..minieval import Unsupported
-from ..model import AnalysisError, enclosing_stmt, parent, text, walk_fn
+from ..model import AnalysisError, Undecided, enclosing_stmt, parent, text, walk_fn
 from .c10 import _expanded_strings
 
 RESPELLABLE = set("{}[]#\\^|~")
@@ -332,7 +332,7 @@ def check(run, prog):
                     if diff is None and (res[0] != res[1] or not res[0][2] or res[0][0] != "ok"):
                         diff = (key, sp, res)
         except Unsupported as e:
-            raise AnalysisError(f"Lexer.{fname} is outside the evaluable subset: {e}")
+            raise Undecided(f"Lexer.{fname} is outside the evaluable subset: {e}")
         run.ob("R-12.1", f"{fn.key}::respelling-invariant", diff is None and n_sp > 0,
                (f"{diff[0]!r} gives {diff[2][0][1]} but its spelling {diff[1]!r} gives {diff[2][1][1]} "
                 f"(whole lexeme consumed: {diff[2][0][2]} / {diff[2][1][2]})") if diff else "no respellable key", fn.node, spellings=n_sp)
@@ -357,7 +357,7 @@ def check(run, prog):
         if wrong is None and not (out.kind == "ok" and tuple(out.value or ()) == want):
             wrong = (f"{t3 + d2 + 'a'} (times=3)", want, out)
     except Unsupported as e:
-        raise AnalysisError(f"Lexer.peek is outside the evaluable subset: {e}")
+        raise Undecided(f"Lexer.peek is outside the evaluable subset: {e}")
     run.ob("R-12.1", f"{pk.key}::translation-order", bool(good) and not bad_ and wrong is None,
            f"peek() does not test trigraph, then digraph, then plain character "
            f"({len(good)} digraph test(s) reached only after a failed trigraph test, {len(bad_)} misplaced"
@@ -382,7 +382,7 @@ def check(run, prog):
                 if got != (v, len(k)) and wrong_ctx is None:
                     wrong_ctx = (ctx, k, (v, len(k)), got)
     except Unsupported as e:
-        raise AnalysisError(f"Lexer.peek is outside the evaluable subset: {e}")
+        raise Undecided(f"Lexer.peek is outside the evaluable subset: {e}")
     run.ob("R-12.1", f"{pk.key}::context-independent", wrong_ctx is None,
            (f"peek() at the spelling {wrong_ctx[1]!r} standing right after {wrong_ctx[0]!r} returns {wrong_ctx[3]!r}, expected "
             f"{wrong_ctx[2]!r}: whether a spelling is translated depends on the characters before it") if wrong_ctx else "",
@@ -403,7 +403,7 @@ def check(run, prog):
             if wrong is None and not (out.kind == "ok" and out.value == want and sim.pos == size):
                 wrong = (src, want, size, out, sim.pos)
     except Unsupported as e:
-        raise AnalysisError(f"Lexer.pop is outside the evaluable subset: {e}")
+        raise Undecided(f"Lexer.pop is outside the evaluable subset: {e}")
     run.ob("R-12.1", f"{pop.key}::reads-through-peek", wrong is None and not pbad,
            "pop() does not read the next character through the translating peek()"
            + (f": on {wrong[0]!r} it returns {wrong[3]!r} and consumes {wrong[4]} (expected {wrong[1]!r}, {wrong[2]})" if wrong else ""),
@@ -507,7 +507,7 @@ def check(run, prog):
                 else:
                     fails["longest"].append(rec)
     except Unsupported as e:
-        raise AnalysisError(f"Lexer.parse_operator is outside the evaluable subset: {e}")
+        raise Undecided(f"Lexer.parse_operator is outside the evaluable subset: {e}")
     run.require(n_runs >= 200, f"only {n_runs} (operator, next character) pairs evaluated (floor 200)")
 
     def show(recs):
